@@ -1460,19 +1460,20 @@ class TrackSpecificationReader:
             corpus_target_ds = None
             corpus_target_type = None
 
+            # the corpus-level defaults also apply when the track defines no indices / data streams itself (e.g. only templates)
             if len(indices) == 1:
                 corpus_target_idx = self._r(corpus_spec, "target-index", mandatory=False, default_value=indices[0].name)
-            elif len(indices) > 0:
+            else:
                 corpus_target_idx = self._r(corpus_spec, "target-index", mandatory=False)
 
             if len(data_streams) == 1:
                 corpus_target_ds = self._r(corpus_spec, "target-data-stream", mandatory=False, default_value=data_streams[0].name)
-            elif len(data_streams) > 0:
+            else:
                 corpus_target_ds = self._r(corpus_spec, "target-data-stream", mandatory=False)
 
             if len(indices) == 1 and len(indices[0].types) == 1:
                 corpus_target_type = self._r(corpus_spec, "target-type", mandatory=False, default_value=indices[0].types[0])
-            elif len(indices) > 0:
+            else:
                 corpus_target_type = self._r(corpus_spec, "target-type", mandatory=False)
 
             for doc_spec in self._r(corpus_spec, "documents"):
